@@ -46,6 +46,9 @@ class Prog:
     def neg(self, x, z):
         self.ops.append({'op': 'Neg', 'x': x, 'z': z})
 
+    def clone(self, x, z):
+        self.ops.append({'op': 'Clone', 'x': x, 'z': z})
+
     def abs(self, x, z):
         self.ops.append({'op': 'Abs', 'x': x, 'z': z})
 
